@@ -10,6 +10,7 @@ ASSUMPTIONS = [
     "durations are arbitrary integers >= 0 (z3 Int, unbounded above)",
     "shapes bounded as in coverage.bounds",
     "builtins max/min modelled as If-terms, int() identity on integer terms",
+    "probe variants issue public queries (current_time, start_time on every eligible machine, earliest_start_time, ongoing/uncompleted) between dispatches",
     "replay is checked on a fresh dispatcher after every prefix and on the same dispatcher after reset() at the end "
     "(thorough: also at a chosen prefix); Schedule.from_job_sequences replay is part of C14",
 ]
@@ -31,6 +32,9 @@ def subspaces(tier):
     for f in ("none", "default_pair"):
         out += C.structure_subspaces(s4, 2, False, filter=f)
     out += C.structure_subspaces(D.shapes(3, 3), 2, True, only_flexible=True, filter="none")
+    out += C.structure_subspaces(D.shapes(3, 3), 2, True, only_flexible=True, filter="none", probe=True)
+    out += C.structure_subspaces(D.shapes(3, 3), 2, True, only_flexible=True, filter="default_pair")
+    out += C.structure_subspaces([s for s in s4 if sum(s) >= 3], 2, False, filter="none", probe=True)
     if tier == "thorough":
         out += C.structure_subspaces(s4, 2, False, filter="none", reset_prefix=True)
         out += C.structure_subspaces([s for s in s4 if sum(s) == 4], 2, True, only_flexible=True, filter="none")
@@ -78,6 +82,15 @@ def harness(eng, sp):
             break
         if filt != "none":
             disp.available_operations()
+        if sp.get("probe"):
+            # public queries between dispatches must not influence the next start time
+            disp.current_time()
+            for o in spec.ready_ops():
+                for mm in desc.machines[o]:
+                    disp.start_time(D.op_by_id(inst, o), mm)
+                disp.earliest_start_time(D.op_by_id(inst, o))
+            disp.ongoing_operations()
+            disp.uncompleted_operations()
         op, m = D.choose_dispatch(eng, desc, spec)
         lop = D.op_by_id(inst, op)
         expected = spec.forced_start(op, m)
